@@ -221,7 +221,7 @@ def history_case(rng, nops, cyc_ok):
     for s in range(nslot):
         ops.append("size %d" % s)
     for s in (conts[:6] if conts else list(range(min(nslot, 3)))):
-        ops += ["render %d" % s, "rt %d" % s]
+        ops += ["render %d" % s] + (ctx_flow(rng, s) if rng.chance(1, 3) else ["rt %d" % s])
     return ops
 
 
@@ -258,10 +258,54 @@ def tree_ops(rng, depth, width, st, scalars=None):
     return me
 
 
+POISON_FAIL = [b"[1, 2", b'{"a": [true,', b"[[[[", b'{"a":{"b":[', b'[{"k":', b"[", b"[" * 5, b"[" * 64, b"[" * 600,
+               b'{"a":' * 40, b"[tru]", b"[1, nul]", b'{"a" 1}', b"[1 2", b'["\xc0\x80"]', b'{"k":"\xed\xa0\x80"',
+               b'["\xff', b'["\\ud800"', b'[{"a":1,"a":2}]', b'{"a":[1,{"b":tru', b"[[1],[2],[", b'{"a":{"a":{"a":1,"a":2}}}',
+               b"[1]]", b'{"x":[1,2]} x']
+POISON_OK = [b"[1,2]", b"{}", b"7", b'"s"', b"[" * 600 + b"]" * 600, b'{"a":{"b":[null]}}', b" [ [ ] , { } ] ", b"null"]
+
+
+def ctx_flow(rng, slot):
+    """context-history dimension of the round trip: the rendered document is re-parsed (a) in a
+    fresh context, (b) in the context the tree lives in, (c) after 1-3 FAILED parses on the
+    re-parse context or on the tree's own context (containers left open at several depths, bad
+    tokens, ill-formed UTF-8, duplicate names, trailing garbage), (d) after successful parses of
+    other documents.  json_parse's result must not depend on any of that."""
+    ops = ["dump %d" % slot]
+    r = rng.below(10)
+    if r < 2:
+        ops.append("rtf %d" % slot)
+    elif r < 4:
+        ops.append("rts %d" % slot)
+    else:
+        for _ in range(1 + rng.below(3)):
+            which = rng.choice(["0", "2", "2"])
+            doc = rng.choice(POISON_FAIL) if rng.chance(3, 4) else rng.choice(POISON_OK)
+            ops.append("poison %s %s" % (which, vf.hexs(doc)))
+        ops.append(rng.choice(["rt", "rt", "rts", "rtf"]) + " %d" % slot)
+        if rng.chance(1, 2):
+            ops.append(rng.choice(["rt", "rts"]) + " %d" % slot)
+    return ops
+
+
+def ctx_sweep_cases():
+    """every failing / succeeding document once, before a re-parse in each of the three contexts, and
+    before a json_parse of a second document in the same context"""
+    cases = []
+    for doc in POISON_FAIL + POISON_OK:
+        h = vf.hexs(doc)
+        cases.append(["list", "append_int 0 1", "dict", "put 2 6b 0", "dump 2",
+                      "poison 2 " + h, "rt 2", "poison 0 " + h, "rts 2", "rtf 2", "rt 2",
+                      "parse 5b312c7b2261223a5b5d7d5d -", "dump 3", "rt 3", "rts 3"])
+        cases.append(["parse %s -" % h, "parse 7b2261223a5b747275652c6e756c6c5d7d -", "size 1", "dump 1", "rts 1", "rt 1"])
+        cases.append(["parse %s -" % h, "parse 37 -", "dump 1", "parse 5b5d -", "dump 2", "rts 2"])
+    return cases
+
+
 def tree_case(rng, depth, width):
     st = {"ops": [], "n": 0}
     root = tree_ops(rng, depth, width, st)
-    return st["ops"] + ["size %d" % root, "render %d" % root, "dump %d" % root, "rt %d" % root]
+    return st["ops"] + ["size %d" % root, "render %d" % root] + ctx_flow(rng, root)
 
 
 def deep_case(rng, depth):
@@ -401,7 +445,7 @@ def parse_case(rng, depth):
     kind, a = scalar_words(rng, bad_ok=True)
     k = vf.hexs(gen_key(rng))
     ops += ["list", "append %d 0" % (nf + 1), "append_%s 0%s" % (kind, a), "put_%s 0 %s%s" % (kind, k, a),
-            "put_%s 0 %s%s" % (kind, k, a), "size 0", "render 0", "rt 0"]
+            "put_%s 0 %s%s" % (kind, k, a), "size 0", "render 0"] + ctx_flow(rng, 0)
     return ops
 
 
@@ -567,15 +611,26 @@ def size_monitor(lines, c_lines):
             yield i, "libc hypothesis of the round trip fails: " + l, "libc-float"
 
 
+OBSERVERS = ("size", "render", "dump", "rt", "rtf", "rts", "poison")
+
+
 def rt_monitor(lines, c_lines):
-    """round trip on the implementation's own output: `rt` (render, json_parse, dump) must
-    equal the `dump` of the same value when both are requested back to back."""
-    for i in range(1, min(len(lines), len(c_lines))):
-        if lines[i].startswith("rt ") and lines[i - 1].startswith("dump ") and \
-                lines[i].split()[1] == lines[i - 1].split()[1]:
-            a, b = c_lines[i - 1], c_lines[i]
-            if a.startswith("v ") and b != "rt " + a[2:]:
-                yield i, "re-parsed tree differs from the tree rendered: %s vs %s" % (a[:200], b[:200]), "roundtrip"
+    """round trip on the implementation's own output, independent of the model and of the
+    context's history: after `dump s`, every `rt s` / `rtf s` / `rts s` (render, json_parse in the
+    re-parse / a fresh / the tree's own context, dump) must print the same tree until a builder or
+    parse call intervenes - whatever was parsed (and failed) in those contexts in between."""
+    last = {}
+    for i in range(min(len(lines), len(c_lines))):
+        w = lines[i].split(" ", 2)
+        op = w[0]
+        if op == "#case" or op not in OBSERVERS:
+            last = {}
+        elif op == "dump" and c_lines[i].startswith("v "):
+            last[w[1]] = c_lines[i][2:]
+        elif op in ("rt", "rtf", "rts") and w[1] in last:
+            if c_lines[i] != "rt " + last[w[1]]:
+                yield i, "re-parsed tree differs from the tree rendered (%s): %s vs %s" % (
+                    op, last[w[1]][:200], c_lines[i][:200]), "roundtrip"
 
 
 def monitor(lines, c_lines):
@@ -613,7 +668,7 @@ def run(ck):
                       "when it is distinct and contains a builder or parse call")
     rng = vf.SplitMix(ck.seed)
     hist = {}
-    nontriv = lambda c: any(l.split()[0] not in ("size", "render", "dump", "rt") for l in c)
+    nontriv = lambda c: any(l.split(" ", 1)[0] not in OBSERVERS for l in c)
 
     def enough():
         # several concrete failing inputs are already minimised and recorded: stop searching
@@ -643,6 +698,12 @@ def run(ck):
     go(scalar_sweep_cases(rng, "float"), "sweep-float")
     go(scalar_sweep_cases(rng, "str"), "sweep-str")
     go(bad_doc_cases(), "bad-docs")
+    cs = ctx_sweep_cases()
+    go(cs, "context-history")
+    ck.cov["context_history"] = {"sweep_cases": len(cs), "failing_docs": len(POISON_FAIL), "succeeding_docs": len(POISON_OK),
+                                 "frame_condition": "monitored on the implementation's own output: after `dump s`, every re-parse "
+                                 "of s (fresh context / tree's context / re-parse context, after failed and successful parses "
+                                 "in them) prints the same tree; the model's parser is a pure function of the document"}
     bk = big_key_cases(rng, not ck.quick())
     go(bk, "big-key", chunk=4)
     ck.cov["big_key_family"] = {"cases": len(bk), "tier_note": "full family (3 plain + 11 escaped names, each through "
